@@ -266,6 +266,166 @@ func c19ParseEncode(c *kit.Ctx, m *c19Model, f *kit.Func) *frameEnc {
 	return fe
 }
 
+// c19ParseEncodeAppend recognises an encoder that builds its frame by
+// appending, in straight-line order:
+//
+//	buf := make([]byte, 0, n) | []byte{…} | nil
+//	buf = append(buf, id, byte(pdu.fc), …)        header bytes
+//	buf = append(buf, pdu.Data...)                 the data
+//	buf = ORDER.AppendUint16(buf, C(buf))          checksum over all that precedes it
+//	buf = ORDER.AppendUint16(buf, recv.field)      (before the data: a header word)
+func c19ParseEncodeAppend(c *kit.Ctx, m *c19Model, f *kit.Func) *frameEnc {
+	info := f.Info()
+	fe := &frameEnc{id: -1, fc: -1, data: -1, total: -1, words: map[*types.Var][2]interface{}{}, wordCall: map[*types.Var]*ast.CallExpr{}}
+	var idP, pduP *types.Var
+	for _, p := range f.Params() {
+		if types.Identical(p.Type(), m.PduType) {
+			pduP = p
+		} else {
+			idP = p
+		}
+	}
+	ast.Inspect(f.Body, func(n ast.Node) bool {
+		if r, ok := n.(*ast.ReturnStmt); ok && len(r.Results) == 2 && kit.IsNilIdent(info, r.Results[1]) {
+			fe.buf = kit.ObjOf(info, r.Results[0])
+		}
+		return true
+	})
+	if fe.buf == nil || pduP == nil || idP == nil {
+		fe.problems = append(fe.problems, "no `return buf, nil` / parameters not recognised")
+		return fe
+	}
+	isPduField := func(e ast.Expr, fld *types.Var) bool {
+		sel, ok := ast.Unparen(e).(*ast.SelectorExpr)
+		if !ok || kit.ObjOf(info, sel.X) != types.Object(pduP) {
+			return false
+		}
+		s, ok := info.Selections[sel]
+		return ok && s.Obj() == fld
+	}
+	unconv := func(e ast.Expr) ast.Expr {
+		if call, ok := ast.Unparen(e).(*ast.CallExpr); ok && len(call.Args) == 1 {
+			if tv, ok := info.Types[call.Fun]; ok && tv.IsType() {
+				return call.Args[0]
+			}
+		}
+		return e
+	}
+	cursor := int64(-1) // bytes before the data; -1: buffer not yet created
+	trailer := int64(-1) // bytes after the data; -1: data not yet appended
+	bad := func(format string, a ...any) {
+		fe.problems = append(fe.problems, fmt.Sprintf(format, a...))
+	}
+	add := func(nbytes int64) int64 { // returns the offset of the appended bytes (from the start, or from the end of the data)
+		if trailer >= 0 {
+			off := trailer
+			trailer += nbytes
+			return off
+		}
+		off := cursor
+		cursor += nbytes
+		return off
+	}
+	for _, st := range f.Body.List {
+		as, ok := st.(*ast.AssignStmt)
+		if !ok {
+			if _, isRet := st.(*ast.ReturnStmt); isRet {
+				continue
+			}
+			// anything else must not touch the buffer
+			touches := false
+			ast.Inspect(st, func(n ast.Node) bool {
+				if id, ok := n.(*ast.Ident); ok && kit.ObjOf(info, id) == fe.buf {
+					touches = true
+				}
+				return true
+			})
+			if touches {
+				bad("statement `%s` uses the frame buffer in a way that is not followed", trunc(f.Str(st), 50))
+			}
+			continue
+		}
+		if len(as.Lhs) != 1 || len(as.Rhs) != 1 || kit.ObjOf(info, as.Lhs[0]) != fe.buf {
+			continue
+		}
+		rhs := ast.Unparen(as.Rhs[0])
+		call, isCall := rhs.(*ast.CallExpr)
+		switch {
+		case cursor < 0:
+			// creation
+			switch {
+			case isCall && len(call.Args) >= 2:
+				if bi, ok := kit.Callee(info, call).(*types.Builtin); ok && bi.Name() == "make" {
+					if n, isC := kit.ConstInt(info, call.Args[1]); isC && n == 0 {
+						cursor = 0
+						continue
+					}
+				}
+				bad("the frame buffer is not created empty")
+			case kit.IsNilIdent(info, rhs):
+				cursor = 0
+			default:
+				if cl, ok := rhs.(*ast.CompositeLit); ok && mbIsByteSlice(info.TypeOf(cl)) && len(cl.Elts) == 0 {
+					cursor = 0
+				} else {
+					bad("the frame buffer is not created empty")
+				}
+			}
+		case isCall:
+			if bi, ok := kit.Callee(info, call).(*types.Builtin); ok && bi.Name() == "append" && len(call.Args) >= 2 && kit.ObjOf(info, call.Args[0]) == fe.buf {
+				if call.Ellipsis.IsValid() {
+					if len(call.Args) == 2 && isPduField(call.Args[1], m.DataField) && trailer < 0 {
+						fe.data = cursor
+						trailer = 0
+					} else {
+						bad("`%s` appends something other than the PDU data", trunc(f.Str(as), 50))
+					}
+					continue
+				}
+				for _, a := range call.Args[1:] {
+					off := add(1)
+					v := unconv(a)
+					switch {
+					case kit.ObjOf(info, v) == types.Object(idP) && trailer < 0:
+						fe.id = off
+					case isPduField(v, m.FcField) && trailer < 0:
+						fe.fc = off
+					}
+				}
+				continue
+			}
+			if name, order, _, isBO := kit.ByteOrderCall(info, call); isBO && name == "AppendUint16" && len(call.Args) == 2 && kit.ObjOf(info, call.Args[0]) == fe.buf {
+				off := add(2)
+				v := ast.Unparen(call.Args[1])
+				if fld := recvField(f, v); fld != nil && trailer < 0 {
+					fe.words[fld] = [2]interface{}{off, order}
+					fe.wordCall[fld] = call
+					continue
+				}
+				if vc, ok := v.(*ast.CallExpr); ok && len(vc.Args) == 1 {
+					if fn, ok := kit.Callee(info, vc).(*types.Func); ok && fn.Pkg() == m.pkg && mbIsChecksumSig(fn) {
+						if kit.ObjOf(info, vc.Args[0]) == fe.buf && trailer == 2 {
+							// checksum of everything appended so far, stored in the last two bytes
+							fe.crcFn, fe.crcSpanT, fe.crcAt, fe.crcOrder = fn, 2, 2, order
+							continue
+						}
+						bad("the checksum `%s` does not cover exactly the bytes that precede it", trunc(f.Str(vc), 50))
+						continue
+					}
+				}
+				continue
+			}
+			bad("`%s` changes the frame buffer in a way that is not followed", trunc(f.Str(as), 50))
+		default:
+			bad("`%s` changes the frame buffer in a way that is not followed", trunc(f.Str(as), 50))
+		}
+	}
+	if cursor >= 0 && trailer >= 0 {
+		fe.total = cursor + trailer
+	}
+	return fe
+}
+
 func mbIsChecksumSig(fn *types.Func) bool {
 	sig := fn.Type().(*types.Signature)
 	if sig.Recv() != nil || sig.Params().Len() != 1 || sig.Results().Len() != 1 || !mbIsByteSlice(sig.Params().At(0).Type()) {
@@ -415,13 +575,9 @@ func c19ParseDecode(c *kit.Ctx, m *c19Model, f *kit.Func) *frameDec {
 	for _, k := range cands {
 		ki := k.Info()
 		kb := kit.AnalyseBounds(c.P, k)
-		var sumVar, storedVar types.Object
+		var sumCall, storedCall *ast.CallExpr
 		ast.Inspect(k.Body, func(n ast.Node) bool {
-			as, ok := n.(*ast.AssignStmt)
-			if !ok || len(as.Lhs) != 1 || len(as.Rhs) != 1 {
-				return true
-			}
-			call, ok := ast.Unparen(as.Rhs[0]).(*ast.CallExpr)
+			call, ok := n.(*ast.CallExpr)
 			if !ok || len(call.Args) != 1 {
 				return true
 			}
@@ -430,28 +586,28 @@ func c19ParseDecode(c *kit.Ctx, m *c19Model, f *kit.Func) *frameDec {
 				return true
 			}
 			if fn, ok := kit.Callee(ki, call).(*types.Func); ok && fn.Pkg() == m.pkg && mbIsChecksumSig(fn) && se.Low == nil && se.High != nil {
-				if t, fromEnd, ok := mbOffset(kb, k, se.X, se.High, as); ok && fromEnd {
+				if t, fromEnd, ok := mbOffset(kb, k, se.X, se.High, call); ok && fromEnd {
 					fd.crcFn, fd.crcSpanT = fn, t
-					sumVar = kit.ObjOf(ki, as.Lhs[0])
+					sumCall = call
 				}
 			}
 			if name, order, _, isBO := kit.ByteOrderCall(ki, call); isBO && name == "Uint16" && se.Low != nil && se.High == nil {
-				if t, fromEnd, ok := mbOffset(kb, k, se.X, se.Low, as); ok && fromEnd {
+				if t, fromEnd, ok := mbOffset(kb, k, se.X, se.Low, call); ok && fromEnd {
 					fd.crcAt, fd.crcOrder = t, order
-					storedVar = kit.ObjOf(ki, as.Lhs[0])
+					storedCall = call
 				}
 			}
 			return true
 		})
-		if sumVar == nil {
+		if sumCall == nil {
 			continue
 		}
 		fd.checker = k
 		fd.checkCall = calls[k]
 		ast.Inspect(k.Body, func(n ast.Node) bool {
 			if be, ok := n.(*ast.BinaryExpr); ok && (be.Op == token.NEQ || be.Op == token.EQL) {
-				x, y := kit.ObjOf(ki, be.X), kit.ObjOf(ki, be.Y)
-				if storedVar != nil && ((x == sumVar && y == storedVar) || (x == storedVar && y == sumVar)) {
+				x, y := ast.Unparen(mbResolve(k, be.X)), ast.Unparen(mbResolve(k, be.Y))
+				if storedCall != nil && ((x == ast.Expr(sumCall) && y == ast.Expr(storedCall)) || (x == ast.Expr(storedCall) && y == ast.Expr(sumCall))) {
 					fd.crcCmp = be
 				}
 			}
@@ -578,6 +734,12 @@ func c19R2(c *kit.Ctx, m *c19Model) {
 		}
 		name := t.Named.Obj().Name()
 		fe := c19ParseEncode(c, m, t.Encode)
+		if len(fe.problems) == 0 && (fe.id < 0 || fe.fc < 0 || fe.data < 0 || fe.total < 0) {
+			// not the make-and-fill form: try the append form
+			if fa := c19ParseEncodeAppend(c, m, t.Encode); len(fa.problems) == 0 && fa.id >= 0 && fa.fc >= 0 && fa.data >= 0 && fa.total >= 0 {
+				fe = fa
+			}
+		}
 		fd := c19ParseDecode(c, m, t.Decode)
 		c.Analysed(t.Encode, t.Decode)
 		// layout
